@@ -1,6 +1,7 @@
 import TealerModel.Proto
 import TealerModel.Avm
 import TealerModel.Regex
+import TealerModel.Group
 open Tealer Tealer.Proto
 
 def emit (out : IO.FS.Stream) (s : String) : IO Unit := out.putStrLn s
@@ -145,6 +146,47 @@ def handleRegex (out : IO.FS.Stream) (id : String) (args : List String) : IO Uni
     | _, _, _ => emit out s!"rx {id} badrequest"
   | _ => emit out s!"rx {id} badrequest"
 
+/-- `group <id> <sl|sf> <txns> <own> <abs> <rel>`: the group verdict loop on scripted contract answers.
+    txns `|`-separated `id,hasLogicSig,lsContract,app,typeOk,abs|-,k:other;...|-`; answer lists `,`-separated `id:c[:n]`, `-` when empty;
+    a malformed request is rejected, never defaulted -/
+def handleGroup (out : IO.FS.Stream) (id : String) (args : List String) : IO Unit := do
+  let bit (s : String) : Option Bool := if s == "1" then some true else if s == "0" then some false else none
+  let lst (s : String) (sep : String) : List String := if s == "-" then [] else s.splitOn sep
+  let parseTxn (s : String) : Option Group.GTxn :=
+    match s.splitOn "," with
+    | [i, fl, ls, app, ok, ab, offs] => do
+      let i ← i.toNat?
+      let fl ← bit fl
+      let ls ← bit ls
+      let app ← bit app
+      let ok ← bit ok
+      let ab ← if ab == "-" then some none else ab.toNat?.map some
+      let offs ← (lst offs ";").mapM fun e =>
+        match e.splitOn ":" with
+        | [k, o] => do some ((← k.toInt?), (← o.toNat?))
+        | _ => none
+      some ⟨i, fl, ls, app, ok, ab, offs⟩
+    | _ => none
+  let parseAns (s : String) (arity : Nat) : Option (List (Nat × Bool × Int)) :=
+    (lst s ",").mapM fun e =>
+      match e.splitOn ":", arity with
+      | [i, c], 2 => do some ((← i.toNat?), (← bit c), 0)
+      | [i, c, n], 3 => do some ((← i.toNat?), (← bit c), (← n.toInt?))
+      | _, _ => none
+  match args with
+  | [det, txns, own, ab, rel] =>
+    let det : Option Group.DetType := match det with
+      | "sl" => some .stateless | "sf" => some .stateful | _ => none
+    match det, (lst txns "|").mapM parseTxn, parseAns own 2, parseAns ab 3, parseAns rel 3 with
+    | some det, some txns, some own, some ab, some rel =>
+      let a : Group.Answers := {
+        own := fun i c => own.contains (i, c, 0)
+        atAbs := fun i c n => ab.contains (i, c, Int.ofNat n)
+        atRel := fun i c k => rel.contains (i, c, k) }
+      emit out s!"gv {id} {natList (Group.groupVerdict det a txns)}"
+    | _, _, _, _, _ => emit out s!"gv {id} badrequest"
+  | _ => emit out s!"gv {id} badrequest"
+
 partial def loop (inp out : IO.FS.Stream) (prog : List Ins) (pcb : List (Nat × Bool)) : IO Unit := do
   let line ← inp.getLine
   if line.isEmpty then return ()
@@ -163,6 +205,10 @@ partial def loop (inp out : IO.FS.Stream) (prog : List Ins) (pcb : List (Nat × 
     | none => emit out "semprog err decode"; out.flush; loop inp out [] []
   | "regex" :: id :: args =>
     handleRegex out id args
+    out.flush
+    loop inp out prog pcb
+  | "group" :: id :: args =>
+    handleGroup out id args
     out.flush
     loop inp out prog pcb
   | "run" :: id :: args =>
